@@ -2,7 +2,7 @@
 //   h_route scenes <scenes.txt> <out.json> [chunk]
 // scenes.txt, one scene per line (integers):
 //   mode P buf opts nshape (kind npts (x y)*npts)*nshape  nconn (sx sy sd dx dy dd)*nconn
-//     mode 0 polyline / 1 orthogonal; P segment penalty; buf shapeBufferDistance;
+//     mode 0 polyline / 1 orthogonal; P segment penalty (P < 0: |P|/1000); buf shapeBufferDistance;
 //     opts bit mask of routing options (see applyOpts); shape kind 0 = polygon given by points
 //     (wound positively, like Avoid::Rectangle); sd/dd direction masks (15 = all)
 // Output: one record per scene with raw routes (route()) and displayed routes
@@ -39,7 +39,7 @@ static bool readScene(std::istream &in, Scene &s)
 
 static void applyOpts(Router *r, const Scene &s)
 {
-    r->setRoutingParameter(segmentPenalty, s.P);
+    r->setRoutingParameter(segmentPenalty, s.P >= 0 ? (double)s.P : -s.P / 1000.0);   // P < 0: a penalty of |P| thousandths
     r->setRoutingParameter(shapeBufferDistance, s.buf);
     // opts bits: 0 nudgeOrthogonalSegmentsConnectedToShapes, 1 penaliseOrthogonalSharedPathsAtConnEnds,
     //  2 nudgeOrthogonalTouchingColinearSegments, 3 performUnifyingNudgingPreprocessingStep (default on: bit inverts),
